@@ -13,6 +13,7 @@ import GoldilocksVerif.Lemmas.BridgePerm
 import GoldilocksVerif.Lemmas.BridgeMerkleAvx
 import GoldilocksVerif.Lemmas.BridgeMerkleBatch
 import GoldilocksVerif.Lemmas.BridgeMerkle512
+import GoldilocksVerif.Gen.MerkleSizeGen
 
 namespace GoldilocksVerif.C08
 open GoldilocksVerif.Model
@@ -381,5 +382,25 @@ theorem C08_generated_merkletree_batch_default (fuel : Nat) (tree input : Goldil
 example : GoldilocksVerif.leaves512 (fun r => r.take 4) (fun l n => (l.take n).take 4 ++ (l.drop n).take 4)
     (GoldilocksVerif.Region.ofList [1,2,3,4,5,6,7,8,9,10,11,12,13,14,15,16,17,18,19,20]) 5 2 =
     [1,2,3,4, 6,7,8,9, 11,12,13,14, 16,17,18,19] := by decide
+
+/-- the TRANSLATED `MerklehashGoldilocks::getTreeNumElements` (Gen/MerkleSizeGen.lean, regenerated from
+    merklehash_goldilocks.hpp on every run) is the hand model `treeNumElements` for every degree ≥ 1: as a 64-bit word without
+    any bound, and as a number (no wrap-around, = 4·(2·degree − 1), the buffer size of `C08_buffer_size`) below 2^61.
+    degree = 0 is outside the property (a tree has at least one row): the C++ expression wraps to 2^64 − 4 there, the hand
+    model over the naturals says 0.  Proved over `Nat` (`omega`), whatever way the expression is factored. -/
+theorem C08_generated_getTreeNumElements (degree : BitVec 64) (h : 1 ≤ degree.toNat) :
+    Gen.MerkleSizeGen.MerklehashGoldilocks_getTreeNumElements degree = BitVec.ofNat 64 (treeNumElements degree.toNat) ∧
+    (degree.toNat < 2 ^ 61 →
+      (Gen.MerkleSizeGen.MerklehashGoldilocks_getTreeNumElements degree).toNat = treeNumElements degree.toNat ∧
+      treeNumElements degree.toNat = 4 * (2 * degree.toNat - 1)) := by
+  have e : (Gen.MerkleSizeGen.MerklehashGoldilocks_getTreeNumElements degree).toNat =
+      treeNumElements degree.toNat % 2 ^ 64 := by
+    unfold Gen.MerkleSizeGen.MerklehashGoldilocks_getTreeNumElements treeNumElements
+    bv_omega
+  refine ⟨BitVec.eq_of_toNat_eq (by rw [e, BitVec.toNat_ofNat]), fun hlt => ?_⟩
+  have h2 : treeNumElements degree.toNat = 4 * (2 * degree.toNat - 1) := by unfold treeNumElements; omega
+  refine ⟨?_, h2⟩
+  rw [e, h2]
+  omega
 
 end GoldilocksVerif.C08
